@@ -161,8 +161,27 @@ pub fn standard(rng: &mut Rng, tier: &str) -> Vec<Item> {
     v.extend(generated_animations(rng, if thorough { 80 } else { 20 }, 20));
     v.extend(generated_vp8l(rng, if thorough { 120 } else { 30 }));
     v.extend(generated_filtered_alpha_stills(rng, if thorough { 80 } else { 24 }, 20));
+    v.extend(generated_multipartition_stills(rng, if thorough { 12 } else { 6 }));
     let sc = with_scale_bits(rng, &v, 3);
     v.extend(sc);
+    v
+}
+
+/// lossy stills with 2, 4 or 8 token partitions (libwebp's default is one), noisy enough for every partition to be longer than
+/// the windows of the reader schedules
+pub fn generated_multipartition_stills(rng: &mut Rng, n: usize) -> Vec<Item> {
+    use crate::ref_webp as rw;
+    let mut v = vec![];
+    for i in 0..n {
+        let w = rng.range(17, 64) as u32;
+        let h = rng.range(33, 80) as u32;
+        let img = synth_rgba(rng, w, h, 4, 0);
+        let parts = 1 + (i % 3) as i32;
+        let q = rng.range(60, 98) as f32;
+        if let Some(f) = rw::encode(w as usize, h as usize, &rgb_of(&img), 3, q, |c| { c.partitions = parts; c.low_memory = 1; c.method = (i % 3) as i32; c.segments = 1 + (i % 4) as i32; }) {
+            v.push(Item { name: format!("gen_lossy_parts{}_{i}_{w}x{h}", 1 << parts), bytes: f, kind: "lossy" });
+        }
+    }
     v
 }
 
